@@ -67,9 +67,9 @@ ASSUMPTIONS = [
 FLOORS = {"quick": {"cases_held": 2500, "vti_files_decoded": 5500, "vti_arrays_compared": 65000, "vti_sizemult_blocks": 1300,
                     "vti_padded_arrays": 6000, "log_rows_checked": 1700, "log_values_compared": 6000,
                     "log_length1_values": 400},
-          "thorough": {"cases_held": 9000, "vti_files_decoded": 25000, "vti_arrays_compared": 150000,
-                       "vti_sizemult_blocks": 3000, "vti_padded_arrays": 10000, "log_rows_checked": 20000,
-                       "log_values_compared": 80000, "log_length1_values": 1500}}
+          "thorough": {"cases_held": 60000, "vti_files_decoded": 230000, "vti_arrays_compared": 2800000,
+                       "vti_sizemult_blocks": 28000, "vti_padded_arrays": 150000, "log_rows_checked": 44000,
+                       "log_values_compared": 170000, "log_length1_values": 11000}}
 TIMEOUT_CASE = 120
 
 # A single-column nodal block vector with 2 components on a 2D grid, shape (2*nnodes,1) / (1,2*nnodes), is inside
